@@ -27,6 +27,7 @@ structure UncheckedOp where
   func : String
   kind : String        -- slice | assert
   expr : String
+  guard : String       -- conditions of the enclosing `if` bodies (slices only)
 deriving Repr, DecidableEq
 
 end Gomacro.Facts
